@@ -144,6 +144,23 @@ def temp_records(cfg, log, raws, decimals, rng, recs, meta, loop):
                              "w1": prev[1], "w2": words["sync"]})
                 meta.append((name, {}))
             prev = (k, words["sync"])
+    # temperature items WITHOUT write permission refuse a write on both paths (no device call, an exception)
+    ro = [t for t in tags if ss.accessors[t].read_write is None][:3]
+    for t in ro:
+        for path, st, cap in (("sync", ss, cs), ("async", sa, ca)):
+            acc = st.accessors[t]
+            _set_field(st, acc, 600)
+            cap.calls.clear()
+            try:
+                if path == "sync":
+                    acc.value = 30.0
+                else:
+                    loop.run_until_complete(acc.async_set_value(30.0))
+                outcome = "write" if cap.calls else "nocall"
+            except Exception as e:  # noqa
+                outcome = "refused" if not cap.calls else f"raised-after-write:{type(e).__name__}"
+            recs.append({"kind": "rowrite", "path": path, "outcome": outcome, "unit": unit})
+            meta.append((f"{cfg['name']}+{log['name']}.{t}", {}))
     # a history on the SAME accessor objects with notifying updates only (the way a live connection changes the
     # block): a temperature is read, the units byte changes through an update that starts exactly at that byte
     # (what a device write or a partial update of TempUnits looks like), then the temperature is read, written
